@@ -459,6 +459,35 @@ public:
     crab::CrabStats::stop("CombinedForwardBackward.GatherAssertions");
 
     if (!m_unproven_assertions.empty() && !only_forward) {
+      // The backward analysis starts from the exit block so it never
+      // visits the blocks that cannot reach the exit. An assertion in
+      // such a block is not taken into account by the necessary
+      // preconditions (they can even be bottom at the entry block)
+      // and it would be wrongly discharged. In that case, we only
+      // run the forward analysis.
+      std::set<basic_block_label_t> can_reach_exit;
+      std::vector<basic_block_label_t> worklist{m_cfg.exit()};
+      can_reach_exit.insert(m_cfg.exit());
+      while (!worklist.empty()) {
+        basic_block_label_t n = worklist.back();
+        worklist.pop_back();
+        for (auto const &p : m_cfg.prev_nodes(n)) {
+          if (can_reach_exit.insert(p).second) {
+            worklist.push_back(p);
+          }
+        }
+      }
+      for (auto const &kv : m_unproven_assertions) {
+        if (can_reach_exit.count(kv.first) == 0) {
+          CRAB_WARN("cannot run backward analysis because an assertion is in "
+                    "a block that cannot reach the exit block");
+          only_forward = true;
+          break;
+        }
+      }
+    }
+
+    if (!m_unproven_assertions.empty() && !only_forward) {
       crab::CrabStats::resume("CombinedForwardBackward.DominatorTree");
       std::unordered_map<basic_block_label_t, basic_block_label_t> idom_map;
       crab::analyzer::graph_algo::dominator_tree(m_cfg, m_cfg.entry(),
